@@ -310,7 +310,7 @@ func (e *Engine) callFunc(f *frame, st *State, callee *ssa.Function, bind []Val,
 		return e.quant("exists", args[0], args[1], args[2].(FuncV), st), st, reach
 	}
 	if strings.HasPrefix(name, "vqSame[") && len(args) == 2 {
-		return BoolV{e.sameIdentity(args[0], args[1])}, st, reach
+		return BoolV{e.sameIdentity(st, args[0], args[1])}, st, reach
 	}
 	pkgPath := originPkgPath(callee)
 	inRepo := strings.HasPrefix(pkgPath, repoPrefix)
